@@ -408,6 +408,8 @@ def compare(conf, reading, d):
 
 def evaluate(d, valid=False, want_ref=False):
     """run the real loader on d -> (outcome class, [(clause, effect, message)])"""
+    import copy as _copy
+    given = _copy.deepcopy(d)       # what the dictionary says, kept apart: the loader gets the caller's object
     try:
         conf = configuration.Configuration(list(LISTEN_OBJS), d)
     except configuration.ConfigurationError:
@@ -415,10 +417,10 @@ def evaluate(d, valid=False, want_ref=False):
     except Exception as ex:   # noqa - the property: nothing but ConfigurationError may come out
         return 'other-exception', [('other-exception', type(ex).__name__, '%s: %s' % (type(ex).__name__, ex))]
     if conf is None:
-        if not (valid or want_ref) or not R.well_typed(d):
+        if not (valid or want_ref) or not R.well_typed(given):
             return 'rejected', []
         try:
-            R.read(d, LISTEN, HOSTS)
+            R.read(given, LISTEN, HOSTS)
         except R.Reject as r:
             return 'rejected:reference-agrees:%s' % r, []
         if valid:
@@ -429,14 +431,14 @@ def evaluate(d, valid=False, want_ref=False):
     for key in conf.ike_configurations:
         if not (isinstance(key, tuple) and len(key) == 2 and key[0] in LISTEN_OBJS):
             out.append(('listen-address', 'accepted', 'loaded a connection under %r: not a listening address' % (key,)))
-    if not R.well_typed(d):
+    if not R.well_typed(given):
         return 'loaded:ill-typed', out
     try:
-        reading = R.read(d, LISTEN, HOSTS)
+        reading = R.read(given, LISTEN, HOSTS)
     except R.Reject as r:
         return 'loaded:unreadable', out + [('must-reject', str(r), 'loaded, but the dictionary has no faithful reading: %s' % r)]
     try:
-        out += compare(conf, reading, d)
+        out += compare(conf, reading, given)
     except Exception as ex:   # noqa
         out.append(('observe', type(ex).__name__, 'the loaded object could not be inspected: %s: %s' % (type(ex).__name__, ex)))
     return 'loaded:compared', out
@@ -579,6 +581,39 @@ def k2_base(b):
 
 # ------------------------------------------------------------------ replay
 
+def alias_cases():
+    """dictionaries in which sub-objects are SHARED between connections (what a YAML anchor / alias produces), and a
+    dictionary that is loaded twice: every load must still give what the dictionary says"""
+    out = []
+    for entries in ([{}], [{'peer_port': 23, 'ip_proto': 'tcp'}], [{}, {'ipsec_proto': 'ah', 'peer_port': 80}]):
+        for second in (('192.168.0.1', '192.168.0.3'), ('2001:db8::1', '2001:db8::2'), ('192.168.0.11', '192.168.0.2')):
+            shared = [dict(e) for e in entries]
+            auth = {'psk': 'testing', 'id': 'alice@example.org'}
+            peer = {'psk': 'testing2', 'id': 'bob.example.org'}
+            d = {'one': {'my_addr': '192.168.0.1', 'peer_addr': '192.168.0.2', 'my_auth': auth, 'peer_auth': peer, 'protect': shared},
+                 'two': {'my_addr': second[0], 'peer_addr': second[1], 'my_auth': auth, 'peer_auth': peer, 'protect': shared}}
+            out.append(('alias:shared-protect-list:%d-entries:%s' % (len(entries), second[0]), d))
+    b = clone(BASES[7]['dict'])
+    out.append(('alias:load-twice', b))
+    return out
+
+
+def run_alias():
+    found, n = [], 0
+    for label, d in alias_cases():
+        for attempt in (1, 2):
+            n += 1
+            oc, probs = evaluate(d, valid=True)
+            for clause, effect, msg in probs:
+                found.append(('%s:%s:%s' % (clause, label, effect), '%s (load number %d of the same dictionary object)' % (msg, attempt),
+                              dict(base=label, deviations=[], dictionary_py=repr(d), listen=LISTEN, hosts=HOSTS)))
+            if label != 'alias:load-twice' and attempt == 1 and oc.startswith('loaded'):
+                continue
+            if label != 'alias:load-twice':
+                break
+    return found, n
+
+
 def replay(path):
     doc = json.load(open(path))
     d = eval(doc['dictionary_py'], {'__builtins__': {}, 'inf': INF, 'nan': NAN})   # written by this check: a literal
@@ -616,6 +651,11 @@ def main():
         for sig, (msg, doc) in sorted(r['found'].items()):
             ck.violation(sig, '%s  [base %s, deviations %s; exact dictionary in the replay file]' % (
                 msg, doc['base'], ', '.join(doc['deviations']) or 'none'), doc)
+    alias_found, alias_n = run_alias()
+    n += alias_n
+    per_family['alias'] = alias_n
+    for sig, msg, doc in alias_found:
+        ck.violation(sig, msg, doc)
     for b in BASES[:1]:
         samples.append(dict(base=b['label'], deviations=[], dictionary=repr(b['dict'])))
     pos0 = positions(BASES[0])
